@@ -57,6 +57,7 @@ type Exec struct {
 	preds    map[string]*predDef
 	unfolded map[string]bool
 	expandPreds bool
+	lazyDepth   int
 	predApps int
 	hookNew  Value
 	havocStore bool
@@ -343,7 +344,7 @@ func (x *Exec) loadAt(st *State, t types.Type, key, base string, idx []string) V
 		}
 		av := ArrayV{Typ: t}
 		for i := int64(0); i < u.Len(); i++ {
-			av.Elems = append(av.Elems, x.loadAt(st, u.Elem(), key, base, append(append([]string{}, idx...), bvLit(uint64(i), 64))))
+			av.Elems = append(av.Elems, x.loadAt(st, u.Elem(), arrayElemKey(key), base, append(append([]string{}, idx...), bvLit(uint64(i), 64))))
 		}
 		return av
 	case *types.Signature:
@@ -442,7 +443,7 @@ func (x *Exec) storeAt(st *State, t types.Type, key, base string, idx []string, 
 			x.fail("store of whole array value unsupported (%T)", v)
 		}
 		for i, e := range av.Elems {
-			x.storeAt(st, u.Elem(), key, base, append(append([]string{}, idx...), bvLit(uint64(i), 64)), e)
+			x.storeAt(st, u.Elem(), arrayElemKey(key), base, append(append([]string{}, idx...), bvLit(uint64(i), 64)), e)
 		}
 		return
 	}
@@ -494,7 +495,7 @@ func (x *Exec) term(v Value) string {
 		}
 		return s.Name
 	case Closure:
-		return "1"
+		return x.fnID(closureName(s.Fn))
 	case GhostArr:
 		return s.T
 	}
@@ -1730,4 +1731,42 @@ func (x *Exec) nilCheck(fr *Frame, st *State, p Ptr, pos token.Pos) {
 	}
 	fr.nilok[p.Base] = true
 	x.safety(fr, st, "nil", "deref", "(not (= "+p.Base+" 0))", pos)
+}
+
+// arrayElemKey is the leaf holding the elements of an array stored at key: an
+// array object (root) keeps them under its own key, an array inside a struct
+// under key[] (as typeAtPath and elemLeaves name it).
+func arrayElemKey(key string) string {
+	if strings.HasPrefix(key, "[]") {
+		return key
+	}
+	return key + "[]"
+}
+
+// closureName identifies a function value: a method value x.M (SSA: the
+// synthetic wrapper T.M$bound) is named "Type.M", any other function by its
+// full name.
+func closureName(fn *ssa.Function) string {
+	n := fn.Name()
+	if strings.HasSuffix(n, "$bound") && fn.Signature != nil && len(fn.FreeVars) == 1 {
+		t := fn.FreeVars[0].Type()
+		if p, ok := t.(*types.Pointer); ok {
+			t = p.Elem()
+		}
+		if nt, ok := t.(*types.Named); ok {
+			return nt.Obj().Name() + "." + strings.TrimSuffix(n, "$bound")
+		}
+	}
+	return fn.String()
+}
+
+// fnID interns a function name as a non-zero integer term (function values in
+// the heap are integers; 0 is the nil function).
+func (x *Exec) fnID(name string) string {
+	if n, ok := x.P.typeTags["fn:"+name]; ok {
+		return fmt.Sprintf("%d", 1000+n)
+	}
+	n := len(x.P.typeTags) + 1
+	x.P.typeTags["fn:"+name] = n
+	return fmt.Sprintf("%d", 1000+n)
 }
